@@ -370,13 +370,14 @@ fn search_props(prop: &str, tier: &str, seed: u64, threads: usize, out: &str) {
         // deep graphs: one long chain closed back to its start, with a few extra edges near the far end
         // (recursion depth, cycles that close far from the root)
         exec::new_section();
-        let ndeep = if quick { 4 } else { 16 };
+        let ndeep = if quick { 8 } else { 24 };
         let fls = flavours.clone();
         let p = prop.to_string();
         spread(&mut ctxs, ndeep, |i| {
             let mut rng = Rng::new(seed.wrapping_mul(7_000_079).wrapping_add(i as u64));
-            let fl = fls[i % fls.len()];
-            let n = 1100 + rng.below(500);
+            let fl = fls[(i + i / 4) % fls.len()];
+            // every fourth chain is several thousand nodes long
+            let n = if i % 4 == 3 { 4300 + rng.below(600) } else { 1100 + rng.below(500) };
             let mut edges: Vec<(usize, usize, u32)> = (0..n - 1).map(|u| (u, u + 1, (u % 3) as u32)).collect();
             let closing = n - 2 - rng.below(3);
             edges.push((closing, 0, 1));
@@ -412,7 +413,32 @@ fn search_props(prop: &str, tier: &str, seed: u64, threads: usize, out: &str) {
             }
             l
         });
-        extra.insert("deep".into(), format!("{ndeep} closed chains of 1100-1600 nodes"));
+        extra.insert("deep".into(), format!("{ndeep} closed chains of 1100-1600 nodes, every fourth of 4300-4900"));
+        // a long-lived thread: the same long successful search again and again in one case on one thread (`hop=0`);
+        // whatever a search leaves behind on its thread adds up
+        if ["C04", "C05", "C06"].contains(&prop) {
+            exec::new_section();
+            let fls = flavours.clone();
+            let p = prop.to_string();
+            spread(&mut ctxs, fls.len(), |i| {
+                let fl = fls[i];
+                let n = 260;
+                let edges: Vec<(usize, usize, u32)> = (0..n - 1).map(|u| (u, u + 1, (u % 3) as u32)).collect();
+                let g = gen_search::GraphSpec { n, vals: (0..n).map(|k| (k % 4) as i64).collect(), edges };
+                let mut l = vec![format!("case {fl} soak{i} hop=0")];
+                l.extend(gen_search::graph_lines(&g));
+                let kind = match p.as_str() { "C04" => "bfs", "C05" => "dfs", _ => "pfs-min" };
+                for r in 0..160 {
+                    if exec::is_directed(fl) && r % 2 == 1 {
+                        l.push(format!("search {kind} tr {} 0 none path", n - 1));
+                    } else {
+                        l.push(format!("search {kind} fwd 0 {} none {}", n - 1, if r % 4 == 0 { "node" } else { "path" }));
+                    }
+                }
+                l
+            });
+            extra.insert("soak".into(), "one case per flavour: 160 successful searches along a chain of 260 nodes on one thread".into());
+        }
     }
     if ["C04", "C05", "C06", "C09", "C10"].contains(&prop) {
         // the same searches over nodes whose key type has colliding hashes (visited sets, lookups by key)
